@@ -288,6 +288,7 @@ package render
 //@ func newDcache3
 //@   property C07
 //@   id hdiag
+//@   modular
 //@   invariant 0 rangeindex >= -1 && rangeindex < len(dc.hdiag) && len(dc.hdiag) == n
 //@   invariant 0 forall k int :: 0 <= k && k <= rangeindex ==> dc.hdiag[k] == 0.5*sqrt(3*sq(real(pow2(k))*dc.resolution))
 //@   ensures [table-length] len(r.hdiag) == n
@@ -367,6 +368,7 @@ package render
 //@ func newDcache2
 //@   property C07
 //@   id hdiag
+//@   modular
 //@   invariant 0 rangeindex >= -1 && rangeindex < len(dc.hdiag) && len(dc.hdiag) == n
 //@   invariant 0 forall k int :: 0 <= k && k <= rangeindex ==> dc.hdiag[k] == 0.5*sqrt(2*sq(real(pow2(k))*dc.resolution))
 //@   ensures [table-length] len(r.hdiag) == n
@@ -538,4 +540,35 @@ package render
 //@   generalize v
 //@   focus parameter-in-unit-interval near-first-corner near-second-corner corner-signs
 //@   ensures [field-at-the-vertex-is-at-most-one-edge-length] sq(fv) <= h2
+//@ end
+
+//-----------------------------------------------------------------------------
+// C07, top level: the root cube / square covers the (enlarged) bounding box
+
+//@ func marchingCubesOctree
+//@   property C07
+//@   id root-covers-the-box
+//@   requires resolution > 0
+//@   prelet bb = s.BoundingBox().ScaleAboutCenter(1.01)
+//@   prelet res = 0.5*resolution
+//@   requires bb.Size().MaxComponent() >= resolution
+//@   let levels = evarg("call:newDcache3", 0, 3)
+//@   ensures [one-cache-for-the-shape-over-the-enlarged-box-at-half-the-cell-size] nev("call:newDcache3") == 1 && evarg("call:newDcache3", 0, 0) == s && evarg("call:newDcache3", 0, 1) == bb.Min && evarg("call:newDcache3", 0, 2) == res
+//@   ensures [one-root-cube-at-the-lattice-origin] nev("call:dcache3.processCube") == 1 && evarg("call:dcache3.processCube", 0, 1) == cube{v3i.Vec{0, 0, 0}, levels - 1} && levels >= 2
+//@   ensures [whose-side-is-at-least-the-longest-side-of-the-enlarged-box] real(pow2(levels - 1))*res >= bb.Size().MaxComponent()
+//@   ensures [then-the-sink-is-closed] nev(".Close") == 1 && evbefore("call:dcache3.processCube", ".Close")
+//@ end
+
+//@ func marchingSquaresQuadtree
+//@   property C07
+//@   id root-covers-the-box
+//@   requires resolution > 0
+//@   prelet bb = s.BoundingBox().ScaleAboutCenter(1.01)
+//@   prelet res = 0.5*resolution
+//@   requires bb.Size().MaxComponent() >= resolution
+//@   let levels = evarg("call:newDcache2", 0, 3)
+//@   ensures [one-cache-for-the-shape-over-the-enlarged-box-at-half-the-cell-size] nev("call:newDcache2") == 1 && evarg("call:newDcache2", 0, 0) == s && evarg("call:newDcache2", 0, 1) == bb.Min && evarg("call:newDcache2", 0, 2) == res
+//@   ensures [one-root-square-at-the-lattice-origin] nev("call:dcache2.processSquare") == 1 && evarg("call:dcache2.processSquare", 0, 1) == square{v2i.Vec{0, 0}, levels - 1} && levels >= 2
+//@   ensures [whose-side-is-at-least-the-longest-side-of-the-enlarged-box] real(pow2(levels - 1))*res >= bb.Size().MaxComponent()
+//@   ensures [then-the-sink-is-closed] nev(".Close") == 1 && evbefore("call:dcache2.processSquare", ".Close")
 //@ end
